@@ -110,7 +110,7 @@ def preempt_schedule(nth, first, k, rest_len, r=None):
 
 CHK = "Definition chk (c : list (list qdesc) * nat * list revent) : bool := rcheck (fst (fst c)) (snd (fst c)) (snd c)."
 CASE_T = "list (list qdesc) * nat * list revent"
-HDR_IMPORTS = "Require Import PV.Model.RegConc PV.Spec.SpecC06Conc."
+HDR_IMPORTS = "Require Import PV.Model.RegConc PV.Spec.SpecC06Conc PV.Proofs.RegConcSpecSeq PV.Proofs.RegConcSpecOf."
 PINNED = "Proofs/C06ConcPinned"
 NOHOOK = "[RgNoHooks]"
 
@@ -261,9 +261,12 @@ class C06conc(ConcProp):
                 f.write("Definition cls : list N := Eval vm_compute in map (fun c : %s => conc_classify (fst (fst c)) (snd c)) cases.\n" % self.case_type)
                 f.write("Eval vm_compute in failing (fun x => negb (x =? 2)) %d cls.\n" % lo)     # spec fails
                 f.write("Eval vm_compute in failing (fun x => negb (x =? 1)) %d cls.\n" % lo)     # search out of budget
+                # outside the domain of the uniform theorem c06_conc_spec_of_validated (distinct constant-label keys, events of the
+                # scenario's threads only, no hash collision on the collector table)
+                f.write("Eval vm_compute in failing (fun c : %s => in_domain_tbl (fst (fst c)) (snd (fst c)) (snd c) && no_collision_tbl (fst (fst c))) %d cases.\n" % (self.case_type, lo))
             files.append(path)
         procs = [subprocess.Popen(["timeout", "900", "coqc", "-noglob", "-Q", COQ, "PV", p], stdout=subprocess.PIPE, stderr=subprocess.STDOUT, text=True) for p in files]
-        a, b, bu, errors = [], [], [], []
+        a, b, bu, od, errors = [], [], [], [], []
         for p, path in zip(procs, files):
             out = p.communicate()[0]
             if p.returncode != 0 and "Error" not in out:
@@ -276,7 +279,8 @@ class C06conc(ConcProp):
             if len(ls) > 0: a += ls[0]
             if len(ls) > 1: b += ls[1]
             if len(ls) > 2: bu += ls[2]
-        if tag == "cases": self.budget_cases = sorted(bu)
+            if len(ls) > 3: od += ls[3]
+        if tag == "cases": self.budget_cases = sorted(bu); self.outside_domain = sorted(od)
         return sorted(a), sorted(b), errors
 
     def nontrivial(self, sc, out):
@@ -338,7 +342,7 @@ class C06conc(ConcProp):
         """returns (rc, summary, violation_line or None); prints progress with the prefix [C06 conc]"""
         t0 = time.time()
         tag = "[%s conc]" % self.report_pid
-        self.budget_cases = []
+        self.budget_cases = []; self.outside_domain = []
         proof = self.check_pinned()
         print("%s proofs: make_ok=%s theorems=%d axioms=%s bad=%s forbidden=%d" % (
             tag, proof["make_ok"], proof["obligations"], proof["axioms"], proof["bad_axioms"], len(proof["forbidden"])))
@@ -417,11 +421,11 @@ class C06conc(ConcProp):
             print("%s ERROR: Coq could not evaluate some case files" % tag); rc = 2
         summary.update(distinct_nontrivial=len(nontriv), traces_validated_against_impl=len(scs) - len(failing) - len(missing),
                        transitions=nevents, trace_rejections=len(failing), spec_failures=len(spec_failing),
-                       conc_budget_exhausted=len(self.budget_cases), input_distribution=dict(event_kinds=dict(kinds), scenario_kinds=dict(skinds)),
+                       conc_budget_exhausted=len(self.budget_cases), outside_theorem_domain=len(self.outside_domain), input_distribution=dict(event_kinds=dict(kinds), scenario_kinds=dict(skinds)),
                        samples=[(scs[i]["line"][:400] + " => " + (outs[i] or "")[:600]) for i in range(min(2, len(scs)))],
                        exhaustive=(tier == "thorough"), wall_s=round(time.time() - t0, 2))
-        print("%s scenarios=%d events=%d nontrivial=%d rejected=%d spec_failures=%d budget_exhausted=%d wall=%.1fs rc=%d" % (
-            tag, len(scs), nevents, len(nontriv), len(failing), len(spec_failing), len(self.budget_cases), time.time() - t0, rc))
+        print("%s scenarios=%d events=%d nontrivial=%d rejected=%d spec_failures=%d budget_exhausted=%d outside_theorem_domain=%d wall=%.1fs rc=%d" % (
+            tag, len(scs), nevents, len(nontriv), len(failing), len(spec_failing), len(self.budget_cases), len(self.outside_domain), time.time() - t0, rc))
         return rc, summary, line
 
     def search_part(self, binp, seed, tier, budget_s=60):
